@@ -432,6 +432,32 @@ func (cw *concWorld) finish(mode string, sig map[string]string) {
 		for _, d := range cw.calls[:i] {
 			if d.ret > c.inv {
 				overlap++
+				// what the overlapping pairs are made of (generator quality)
+				isPush := func(x *ccall) bool { return x.f[0] == "pbl" || x.f[0] == "pfl" }
+				isRead := func(x *ccall) bool {
+					switch x.f[0] {
+					case "len", "vals", "rvals", "fv", "bv":
+						return true
+					}
+
+					return false
+				}
+				switch {
+				case isPush(c) && isPush(d):
+					r.Count("lin:overlap:pushlist-pushlist")
+				case isPush(c) || isPush(d):
+					if isRead(c) || isRead(d) {
+						r.Count("lin:overlap:pushlist-reader")
+					} else {
+						r.Count("lin:overlap:pushlist-writer")
+					}
+				case isRead(c) && isRead(d):
+					r.Count("lin:overlap:reader-reader")
+				case isRead(c) || isRead(d):
+					r.Count("lin:overlap:writer-reader")
+				default:
+					r.Count("lin:overlap:writer-writer")
+				}
 			}
 		}
 	}
